@@ -75,6 +75,44 @@ pub fn prog(u: &mut Unstructured) -> Result<FuzzProg> {
     Ok(FuzzProg { program, input, bits })
 }
 
+/// Decoder of the JIT target: half of the inputs become `wide` programs (many simultaneously
+/// live values, so that temporaries spill to the stack), the rest as in `prog`.
+pub fn prog_jit(u: &mut Unstructured) -> Result<FuzzProg> {
+    if u.ratio(1u8, 2u8)? {
+        return prog(u);
+    }
+    let bits = [8u32, 16, 32, 64][u.int_in_range(0usize..=3)?];
+    let ilen = u.int_in_range(0usize..=6)?;
+    let mut input = vec![];
+    for _ in 0..ilen {
+        input.push(u.int_in_range(0u8..=3)?)
+    }
+    let n = u.int_in_range(6u8..=27)?;
+    let mut init = vec![];
+    for _ in 0..20 {
+        init.push((u.int_in_range(0u8..=9)?, u.int_in_range(0u8..=3)?))
+    }
+    let nupd = u.int_in_range(1usize..=20)?;
+    let mut upd = vec![];
+    for _ in 0..nupd {
+        upd.push(crate::bf::Upd { a_off: u.int_in_range(0u8..=2)?, b_off: u.int_in_range(0u8..=3)?, f: u.int_in_range(0u8..=11)?, k: u.int_in_range(0u8..=2)?, clear: u.ratio(3u8, 4u8)? })
+    }
+    let big = if u.ratio(1u8, 6u8)? { Some((u.int_in_range(0u8..=19)?, u.int_in_range(0u8..=2)?, u.int_in_range(0u8..=5)?)) } else { None };
+    let w = crate::bf::WideProg {
+        n,
+        init,
+        cnt_in: u.arbitrary()?,
+        cnt_k: u.int_in_range(0u8..=2)?,
+        looped: u.ratio(9u8, 10u8)?,
+        start: u.int_in_range(0u8..=19)?,
+        upd,
+        nupd_sel: u.arbitrary()?,
+        out_in_loop: if u.ratio(1u8, 3u8)? { Some(u.int_in_range(0u8..=19)?) } else { None },
+        big,
+    };
+    Ok(FuzzProg { program: w.render(), input, bits })
+}
+
 pub fn sv_case(u: &mut Unstructured) -> Result<SvCase> {
     let val = |u: &mut Unstructured| -> Result<i8> { u.int_in_range(0i8..=3) };
     let vals = |u: &mut Unstructured, max: usize| -> Result<Vec<i8>> {
